@@ -105,7 +105,36 @@ def semantic_case(idx, payload):
     if not classes:
         return res
     c = rng.choice(classes)
-    kind = rng.choice(["ctor-shaped-method", "ctor-shaped-method", "misspelled-ctor", "operator-shape", "unknown-dunder", "static-const"])
+    kind = rng.choice(["ctor-shaped-method", "ctor-shaped-method", "misspelled-ctor", "operator-shape", "unknown-dunder", "static-const",
+                       "typedef-unknown-template"])
+    if kind == "typedef-unknown-template":
+        # `typedef Tmpl<Args> Alias;` whose template name is misspelled (one letter lost, or the wrong namespace): the name
+        # denotes nothing in the module, so no declaration can account for the typedef — both generators must refuse
+        from common import impl_matlab
+        good = rng.choice(["Tmq9", "Holderq9", "Boxq9"])
+        ns = rng.choice(["", "", "q9ns"])
+        wrong = rng.choice([good[:-1], good[1:], good + "s", good.lower()])
+        qual = (ns + "::") if ns else ""
+        wrong_q = rng.choice([qual + wrong, qual + wrong, "nosuchns9::" + good])
+        arg = rng.choice(["double", "int", "string"])
+        decl = "template<T> class %s { %s(); T get() const; };\n" % (good, good)
+        tdef = "typedef %s<%s> %sAlias;\n"
+        body = lambda name: (("namespace %s {\n" % ns) if ns else "") + decl + tdef % (name, arg, good) + ("}\n" if ns else "")
+        base = gen.layout(rng, gen.lexemes(m), 'space')
+        text_ok, text = base + "\n" + body(qual + good), base + "\n" + body(wrong_q)
+        res.update(kind=kind, text=text)
+        ok_py = impl_pybind(text_ok, streams.TPL_MIN, "m", [''], False, [], None)
+        if ok_py[0] != "ok":
+            res["kind"] = "none"
+            return res
+        bad_py = impl_pybind(text, streams.TPL_MIN, "m", [''], False, [], None)
+        bad_ml = impl_matlab([text], "m", [], False)
+        res["impl_accepts"] = bad_py[0] == "ok" or bad_ml[0] == "ok"
+        if res["impl_accepts"]:
+            which = [n_ for n_, o_ in (("pybind", bad_py), ("matlab", bad_ml)) if o_[0] == "ok"]
+            res["bad"] = dict(kind="spec", what="a typedef of a template that is declared nowhere (misspelled name %s) is accepted by the %s generator: "
+                              "the declaration is silently dropped" % (wrong_q, "/".join(which)), input=text, corruption=kind)
+        return res
     n_ctor = rng.choice([0, 1, 2])
     for _ in range(n_ctor):
         c.members.insert(rng.randint(0, len(c.members)), gen.Member('ctor', name=c.name, args=g.gen_args((), n=rng.randint(0, 2))))
@@ -166,7 +195,15 @@ def semantic_case(idx, payload):
 SCRIPTS = [("pybind", ["scripts/pybind_wrap.py", "--module_name", "m", "--out", "out.cpp", "--template", "TPL", "--src", "SRC"], ["out.cpp"]),
            ("pybind-sub", ["scripts/pybind_wrap.py", "--module_name", "m", "--out", "out.cpp", "--template", "TPL", "--is_submodule", "--src", "SRC"],
             ["src.cpp", "out.cpp"]),
-           ("matlab", ["scripts/matlab_wrap.py", "--module_name", "m", "--out", "toolbox", "--src", "SRC"], ["toolbox/m_wrapper.cpp", "toolbox/A.m"])]
+           ("matlab", ["scripts/matlab_wrap.py", "--module_name", "m", "--out", "toolbox", "--src", "SRC"], ["toolbox/m_wrapper.cpp", "toolbox/A.m"]),
+           # a LIST of interface files, one of them the rejected text: still all-or-nothing.  (pybind_wrap.py without --is_submodule
+           # reads only the FIRST file of the list — the others are only named as submodules — so there the rejected text is first.)
+           ("pybind-list", ["scripts/pybind_wrap.py", "--module_name", "m", "--out", "out.cpp", "--template", "TPL", "--src", "SRC3"], ["out.cpp"]),
+           ("pybind-sub-list", ["scripts/pybind_wrap.py", "--module_name", "m", "--out", "out.cpp", "--template", "TPL", "--is_submodule", "--src", "SRC2"],
+            ["good.cpp", "src.cpp", "out.cpp"]),
+           ("matlab-list", ["scripts/matlab_wrap.py", "--module_name", "m", "--out", "toolbox", "--src", "SRC2"],
+            ["toolbox/m_wrapper.cpp", "toolbox/Goodq9.m"])]
+GOOD_FILE = "class Goodq9 {\n  Goodq9();\n  double value() const;\n};\n"
 
 
 def snapshot(d):
@@ -188,6 +225,7 @@ def script_case(idx, payload):
     try:
         src = os.path.join(d, "src.i")
         open(src, "w", encoding="utf-8").write(text)
+        open(os.path.join(d, "good.i"), "w", encoding="utf-8").write(GOOD_FILE)
         tpl = os.path.join(REPO, "tests", "pybind_wrapper.tpl")
         if with_sentinel:
             for s in sentinels:
@@ -195,7 +233,7 @@ def script_case(idx, payload):
                 os.makedirs(os.path.dirname(p), exist_ok=True)
                 open(p, "w").write("// sentinel: a previous good output\n")
         before = snapshot(d)
-        cmd = [sys.executable] + [os.path.join(REPO, a) if a.startswith("scripts/") else (tpl if a == "TPL" else ("src.i" if a == "SRC" else a))
+        cmd = [sys.executable] + [os.path.join(REPO, a) if a.startswith("scripts/") else (tpl if a == "TPL" else ("src.i" if a == "SRC" else ({"SRC2": "good.i;src.i", "SRC3": "src.i;good.i"}.get(a, a))))
                                   for a in argv]
         try:
             r = subprocess.run(cmd, cwd=d, capture_output=True, text=True, timeout=60, env=dict(os.environ, PYTHONPATH=REPO))
@@ -230,13 +268,14 @@ def bytes_case(idx, payload):
     d = tempfile.mkdtemp(prefix="verif_c07b_")
     try:
         open(os.path.join(d, "src.i"), "wb").write(raw)
+        open(os.path.join(d, "good.i"), "w", encoding="utf-8").write(GOOD_FILE)
         tpl = os.path.join(REPO, "tests", "pybind_wrapper.tpl")
         for s_ in sentinels:
             p_ = os.path.join(d, s_)
             os.makedirs(os.path.dirname(p_), exist_ok=True)
             open(p_, "w").write("// sentinel: a previous good output\n")
         before = snapshot(d)
-        cmd = [sys.executable] + [os.path.join(REPO, a) if a.startswith("scripts/") else (tpl if a == "TPL" else ("src.i" if a == "SRC" else a))
+        cmd = [sys.executable] + [os.path.join(REPO, a) if a.startswith("scripts/") else (tpl if a == "TPL" else ("src.i" if a == "SRC" else ({"SRC2": "good.i;src.i", "SRC3": "src.i;good.i"}.get(a, a))))
                                   for a in argv]
         r = subprocess.run(cmd, cwd=d, capture_output=True, text=True, timeout=60, env=dict(os.environ, PYTHONPATH=REPO))
         after = snapshot(d)
@@ -332,7 +371,7 @@ def is_known_leniency(ctx, b):
 def main(ctx):
     fw.translate_and_build(ctx, ["WrapModel", "wrapmodel"])
     fw.audit(ctx, THEOREM_MODULES)
-    run(ctx, ctx.scale(360, 9000), ctx.scale(36, 600))
+    run(ctx, ctx.scale(360, 9000), ctx.scale(48, 720))
     for e in ctx.known:
         if e.get("class") == "dropped-qualifier" and not any(h is e for h, _ in ctx.known_hits):
             tree, err = impl_parse(e["witness"]["input"])
